@@ -65,6 +65,14 @@ def check_relations(ca, fd, down):
         k = len(ups)
         if row[:k] != ups or any(x != -1 for x in row[k:]):
             raise Violation(f"upstream({c}) row not padded with -1: {row}")
+    # vectors in another order and with repeats give the same rows
+    order = [(7 * i + 3) % n for i in range(n)] + [0, n - 1, 0]
+    d2 = ca.downstream(np.array(order))
+    u2 = ca.upstream(np.array(order))
+    if [int(x) for x in d2] != [int(down[c]) for c in order] or \
+            not np.array_equal(u2, u[np.array(order)]):
+        raise Violation(f"upstream/downstream depend on the order of the "
+                        f"queried cells ({order}); grid {fd.tolist()}")
 
 
 def check_area(ca, fd, down, outlet, inlets, labels):
